@@ -51,6 +51,18 @@ func HScanExactBody() {
 	f := fs.NewFile("/vfs/root.jst", data)
 	s := NewJApiScanner(f)
 	bb, be := len(tpl.head), len(tpl.head)+len(tpl.body)-1
+	// A "#" comment after a jsight / enum body is a comment of the SCHEMA language: how much of
+	// it the body lexeme covers is decided by jsight-schema-core's Len() (it differs between
+	// "#\n" at the end of the file and "#\n\n"). With such a comment the lexeme may extend into
+	// the trivia (never beyond the file, never starting later); without one it is exact.
+	schemaComment := false
+	if tpl.typ != Text {
+		for _, c := range trail {
+			if c == '#' {
+				schemaComment = true
+			}
+		}
+	}
 	seen := false
 	for i := 0; i < 16; i++ {
 		lex, je := s.Next()
@@ -64,8 +76,13 @@ func HScanExactBody() {
 			seen = true
 			vAssert(lex.Type() == tpl.typ, "c12b-body-type")
 			vAssert(int(lex.Begin()) == bb, "c12b-body-begin")
-			vAssert(int(lex.End()) == be, "c12b-body-end")
-			vAssert(string(lex.Value().Data()) == tpl.body, "c12b-body-bytes")
+			if schemaComment {
+				vAssert(int(lex.End()) >= be && int(lex.End()) < len(data), "c12b-body-end")
+				vAssert(string(lex.Value().Data()[:len(tpl.body)]) == tpl.body, "c12b-body-bytes")
+			} else {
+				vAssert(int(lex.End()) == be, "c12b-body-end")
+				vAssert(string(lex.Value().Data()) == tpl.body, "c12b-body-bytes")
+			}
 		default:
 			vAssert(int(lex.End()) < bb, "c12b-lexeme-after-body")
 		}
